@@ -299,6 +299,19 @@ def do_step(step, objs):
         if op == "text":
             res = parse_cvss_from_text(unesc(step[1]))
             return "text:%s" % step[1], dig(sorted([type(r).__name__, r.vector, r.clean_vector()] for r in res)), "-", None
+        if op == "lowprec":
+            # a caller that works under a decimal context of its own (a handful of digits, any rounding, optionally the Inexact trap)
+            # makes a call; what that call gives is the caller's business and is not judged, but it is part of the history of the
+            # process: nothing it leaves behind may change what later calls under an ordinary context give
+            with decimal.localcontext() as ctx_:
+                ctx_.prec, ctx_.rounding = step[1], getattr(decimal, step[2])
+                if len(step) > 4 and step[4]:
+                    ctx_.traps[decimal.Inexact] = True
+                try:
+                    do_step(step[3], [])
+                except BaseException:  # noqa
+                    pass
+            return "lowprec:%s" % json.dumps(step[1:]), "not-judged", "-", None
         if op in ("ask", "cli"):
             # entry points: they own the terminal while they run (their output is theirs), everything else is judged as for any call
             class _In(object):
@@ -499,6 +512,10 @@ def stress(item):
             for k, d, x in distinct], g0, len(res)
 
 
+class Aborted(BaseException):
+    """what breaks a call off from outside (KeyboardInterrupt, a timeout exception); not an Exception, as those are not"""
+
+
 def preempt(item):
     """Preemption-bounded exploration at line granularity, one preemption per execution: call A runs under a line tracer restricted to
     the library; at every line boundary k of A - its very first, cold, execution in this process included - the process forks, and in
@@ -545,6 +562,9 @@ def preempt(item):
                 os.close(r)
                 sys.settrace(None)
                 state["child"] = w
+                if item.get("abort"):
+                    # ... or A is broken off here by an exception that is not the library's (Ctrl-C, a timeout): B is called afterwards
+                    raise Aborted()
                 state["rb"] = call(vb, sb)
                 return None
             os.close(w)
@@ -559,7 +579,8 @@ def preempt(item):
             try:
                 rb, ra_ = json.loads(data.decode("utf-8"))
                 seen_b.add(tuple(rb))
-                seen_a.add(tuple(ra_))
+                if ra_[0] != "aborted":
+                    seen_a.add(tuple(ra_))
             except ValueError:
                 seen_b.add(("raised", "child-died"))
         return tracer
@@ -569,7 +590,12 @@ def preempt(item):
     sys.stdout = sys.stderr = cap
     sys.settrace(tracer)
     try:
-        ra = call(va, sa)
+        try:
+            ra = call(va, sa)
+        except Aborted:
+            sys.settrace(None)
+            ra = ["aborted", "-"]
+            state["rb"] = call(vb, sb)
     finally:
         sys.settrace(None)
         sys.stdout, sys.stderr = old
@@ -591,6 +617,50 @@ def preempt(item):
     steps += [{"label": lab(va, sa), "res": r, "exc": x, "g": g1, "out": 0, "proj0": "-", "proj": "-"} for r, x in sorted(seen_a)]
     steps += [{"label": lab(vb, sb), "res": r, "exc": x, "g": g1, "out": 0, "proj0": "-", "proj": "-"} for r, x in sorted(seen_b)]
     return steps, g0, state["points"]
+
+
+def poison(item):
+    """Every input is first handed to the library by a caller working under a decimal context of a few digits (results not judged),
+    then, under the ordinary context, once more: the second results are the ones recorded.  With prec = 0 the first pass is left
+    out - that recording is the reference (a different process)."""
+    inputs = [(v, unesc(s_)) for v, s_ in item["inputs"]]
+    cap = Capture()
+    old = sys.stdout, sys.stderr
+    sys.stdout = sys.stderr = cap
+    try:
+        if item.get("prec"):
+            with decimal.localcontext() as ctx_:
+                ctx_.prec, ctx_.rounding = item["prec"], getattr(decimal, item.get("rounding", "ROUND_HALF_EVEN"))
+                if item.get("trap"):
+                    ctx_.traps[decimal.Inexact] = True
+                for v, s_ in inputs:
+                    try:
+                        if v == "text":
+                            parse_cvss_from_text(s_)
+                        elif v.startswith("rh"):
+                            observe(CLS[v[2:]].from_rh_vector(s_), v[2:], with_json=True)
+                        else:
+                            observe(CLS[v](s_), v, with_json=True)
+                    except BaseException:  # noqa
+                        pass
+        steps = []
+        g = globals_digest()
+        for v, s_ in inputs:
+            try:
+                if v == "text":
+                    r_ = parse_cvss_from_text(s_)
+                    res, exc, lab = dig(sorted([type(r).__name__, r.vector, r.clean_vector()] for r in r_)), "-", "text::%s" % esc(s_)
+                elif v.startswith("rh"):
+                    res, exc, lab = dig(observe(CLS[v[2:]].from_rh_vector(s_), v[2:])), "-", "fromrh:%s:%s" % (v[2:], esc(s_))
+                else:
+                    res, exc, lab = dig(observe(CLS[v](s_), v)), "-", "new:%s:%s" % (v, esc(s_))
+            except Exception as e:  # noqa
+                res, exc = "raised", type(e).__name__
+                lab = "text::%s" % esc(s_) if v == "text" else ("fromrh:%s:%s" % (v[2:], esc(s_)) if v.startswith("rh") else "new:%s:%s" % (v, esc(s_)))
+            steps.append({"label": lab, "res": res, "exc": exc, "g": g, "out": 0, "proj0": "-", "proj": "-"})
+    finally:
+        sys.stdout, sys.stderr = old
+    return steps
 
 
 def main():
@@ -675,6 +745,8 @@ def main():
             ev["steps"], ev["g0"], ev["constructions"] = stress(it)
         elif kind == "preempt":
             ev["steps"], ev["g0"], ev["points"] = preempt(it)
+        elif kind == "poison":
+            ev["steps"] = poison(it)
         ev["item"] = it
         out.append(ev)
     data = json.dumps(out, separators=(",", ":"), ensure_ascii=True)
